@@ -97,7 +97,15 @@ func c01(c *wk.Ctx) {
 				}
 				c.Begin(idx, fmt.Sprintf("%v pattern=%v depth=%d", t, pres, g.MaxDepth))
 				var v reflect.Value
-				pan, pm, st := wk.Guard(func() { v = g.Object(t, pres, 0) })
+				pan, pm, st := wk.Guard(func() {
+					v = g.Object(t, pres, 0)
+					// a third of the random values share sub-objects (the same pointer used twice is still a value)
+					if k >= len(patterns) && k%3 == 0 {
+						if n := gen.Alias(v, 0); n > 0 {
+							c.Count("values.with_shared_subobjects", 1)
+						}
+					}
+				})
 				if pan {
 					c.Log.Emit(coreInconclusive("generator: " + pm + " " + st))
 				} else {
